@@ -2,7 +2,15 @@
 # that avoid realising symbolic values where CPython defines the result symbolically.
 #   format(i, "") of a symbolic int  ->  str(i)        (CPython: identical)
 #   int(x) of a symbolic float       ->  x.__int__()   (symbolic truncation)
-# Both are self-tested by vf/harness/selftest.py on every run.
+#   hash(obj)                         ->  the object's real __hash__ (CrossHair's own patch carries a
+#       contract that lets it *short-circuit* hash() to an arbitrary symbolic int; a native dict then
+#       rejects the user-defined __hash__ of jaqalpaq's Register/NamedQubit with
+#       "TypeError: __hash__ method should return an integer", a tool artefact, not behaviour)
+#   set(<native list/tuple/set/range>) -> a native set of the realised elements.  CrossHair's own
+#       constructor patch returns a shell object on which a native set's in-place `tgt |= src`
+#       is not in place (measured: `u = d[k]; u |= set((0,))` leaves d[k] empty under tracing,
+#       which made UsedQubitIndicesVisitor.merge_into lose every qubit).  Elements of a set are
+#       hashed, hence realised, in any case.
 
 
 def _install():
@@ -38,6 +46,33 @@ def _install():
         return _orig_int(*a, **k)
 
     _PATCH_REGISTRATIONS[int] = _int2
+
+    from crosshair.libimpl.builtinslib import invoke_dunder
+    from crosshair.util import is_hashable
+
+    def _hash_plain(obj):
+        with NoTracing():
+            if not is_hashable(obj):
+                return hash(obj)
+        return invoke_dunder(obj, "__hash__")
+
+    _PATCH_REGISTRATIONS[hash] = _hash_plain
+
+    from crosshair.core import deep_realize
+
+    _orig_set = _PATCH_REGISTRATIONS.get(set)
+
+    def _set2(*a):
+        with NoTracing():
+            if len(a) == 0:
+                return set()
+            if len(a) == 1 and type(a[0]) in (list, tuple, set, frozenset, range):
+                return set(deep_realize(a[0]))
+        if _orig_set is None:
+            return set(*a)
+        return _orig_set(*a)
+
+    _PATCH_REGISTRATIONS[set] = _set2
 
 
 _install()
